@@ -162,8 +162,9 @@ class ExtCommunity(Attribute):
                     bgp_cons.BGP_EXT_COM_STR_DICT[comm_code], str(netaddr.EUI(int(binascii.b2a_hex(value_tmp), 16)))))
             # BGP link bandwith
             elif comm_code == bgp_cons.BGP_EXT_COM_LINK_BW:
-                asn, an = struct.unpack('!HI', value_tmp)
-                ext_community.append('%s:%s:%s' % (bgp_cons.BGP_EXT_COM_STR_DICT[comm_code], asn, an))
+                # Link Bandwidth, Format AS(2bytes):bandwidth(4bytes IEEE float, bytes per second)
+                asn, bw = struct.unpack('!Hf', value_tmp)
+                ext_community.append('%s:%s:%s' % (bgp_cons.BGP_EXT_COM_STR_DICT[comm_code], asn, int(bw)))
             else:
                 ext_community.append([bgp_cons.BGP_EXT_COM_UNKNOW, repr(value_tmp)])
                 LOG.warn('unknow bgp extended community, type=%s, value=%s', comm_code, repr(value_tmp))
@@ -252,8 +253,8 @@ class ExtCommunity(Attribute):
                     [struct.pack('!B', (int(i, 16))) for i in item[1].split("-")])
             # bgp link bandwith
             elif item[0] == bgp_cons.BGP_EXT_COM_LINK_BW:
-                asn, an = item[1].split(':')
-                ext_community_hex += struct.pack('!HHI', bgp_cons.BGP_EXT_COM_LINK_BW, int(asn), int(an))
+                asn, bw = item[1].split(':')
+                ext_community_hex += struct.pack('!HHf', bgp_cons.BGP_EXT_COM_LINK_BW, int(asn), int(bw))
             elif item[0] == bgp_cons.BGP_EXT_TRA_ACTION:
                 ext_community_hex += struct.pack('!HIBB', item[0], 0, 0, item[1].get('s', 0) * 2 + item[1].get('t', 0))
             else:
